@@ -346,6 +346,8 @@ def gen_case(rng, idx, tier):
             v['cvx_spell'] = int(rng.integers(6))
         if rng.random() < 0.4:
             v['bound_style'] = ['obj', 'row'][int(rng.integers(2))]
+        if rng.random() < 0.4:
+            v['loose_bounds'] = int(rng.integers(1, 1 << 20))
         vs.append(v)
     return {'kind': 'det', 'spec': spec, 'variants': vs}
 
